@@ -1,4 +1,5 @@
 import FV.Model.Global
+import FV.Model.Registers
 import FV.Proofs.Geom
 import FV.Props.C07
 import FV.Proofs.Stog
@@ -9,8 +10,9 @@ import FV.Props.C01
 
   The only library state that an earlier operation can leave behind and a later one reads is
   (a) the class-wide tolerances of `Rectangle` (this file), (b) the process-wide ROBDD store of the SAT layer
-  (append-only, semantics-preserving: theorems `C07.store_*`), (c) the legaliser's module-level slack, which
-  every model construction overwrites before reading (tied by the correspondence run).
+  (append-only, semantics-preserving: theorems `C07.store_*`), (c) the legaliser's module-level registers: the slack, which
+  every model construction overwrites before reading, a name registry that is never written and a debug mask that
+  only gates printing (model `FV.Proc.LegalRegs`, theorems `legal_build_history_indep`, `createVariable_keeps_name`).
   For (a) the tolerance is sticky: the FIRST design of the process fixes it.  The theorems below say: whatever
   the history, the tolerance a probe sees is one that some design of the history (or the probe itself) proposed;
   hence lies between the smallest and the largest proposal; and a tolerance-reading operation whose input is
@@ -312,6 +314,101 @@ theorem encoding_history_indep (h h' : List (Ineq Var × Bool))
     FV.C07.post_history_exact (FV.C07.store_history_wf h' hpos').1 r' hps σ]
 
 end store
+
+/-! ### the legaliser registers (third piece of surviving state): `epsilon`, `named_variables`, `debug_print`
+
+  `Model.__init__ → first_build_model → define_time` creates the `time` variable and then INSTALLS a fresh slack
+  expression (`set_epsilon`) before any equation is added; every later read (`add_equation`, `get_epsilon`) sees
+  that one.  `named_variables` is consulted but never written.  `debug_print` only gates printing. -/
+
+/-- an operation sequence that installs its own slack before reading it (what every model construction does). -/
+def selfContained : List RegOp → Bool
+  | [] => true
+  | .setEpsilon _ :: _ => true
+  | .getEpsilon :: _ => false
+  | .addEquation _ :: _ => false
+  | _ :: rest => selfContained rest
+
+theorem step_names (s : LegalRegs) (op : RegOp) : (op.step s).1.names = s.names := by
+  cases op <;> rfl
+
+/-- no operation ever registers a name. -/
+theorem runRegs_names (s : LegalRegs) (ops : List RegOp) : (runRegs s ops).1.names = s.names := by
+  induction ops generalizing s with
+  | nil => rfl
+  | cons op ops ih => simp only [runRegs]; rw [ih, step_names]
+
+/-- in every reachable state the name registry is empty … -/
+theorem reachable_names_nil (hist : List RegOp) : (runRegs LegalRegs.init hist).1.names = [] :=
+  runRegs_names _ _
+
+/-- … so `create_variable` always gives the variable the requested name, whatever happened before. -/
+theorem createVariable_keeps_name (hist : List RegOp) (n : String) :
+    ((RegOp.createVariable n).step (runRegs LegalRegs.init hist).1).2 = .name n := by
+  simp [RegOp.step, reachable_names_nil, freshName]
+
+/-- two register states that agree on the installed slack and on the names give the same results (they may differ in
+    the debug mask, which only gates printing) and keep agreeing. -/
+theorem results_agree (ops : List RegOp) (s s' : LegalRegs) (he : s.eps = s'.eps) (hn : s.names = s'.names) :
+    results (runRegs s ops).2 = results (runRegs s' ops).2 ∧
+    (runRegs s ops).1.eps = (runRegs s' ops).1.eps := by
+  induction ops generalizing s s' with
+  | nil => exact ⟨rfl, he⟩
+  | cons op ops ih =>
+    have hstep : (op.step s).1.eps = (op.step s').1.eps ∧ (op.step s).1.names = (op.step s').1.names ∧
+        results [(op.step s).2] = results [(op.step s').2] := by
+      cases op <;> simp [RegOp.step, he, hn, results, RegOut.isResult]
+    obtain ⟨h1, h2, h3⟩ := hstep
+    obtain ⟨ih1, ih2⟩ := ih _ _ h1 h2
+    refine ⟨?_, by simpa only [runRegs] using ih2⟩
+    simp only [runRegs, results, List.filter_cons] at ih1 h3 ⊢
+    rw [ih1]
+    cases h : (op.step s).2 <;> cases h' : (op.step s').2 <;> simp_all [RegOut.isResult]
+
+/-- a self-contained sequence gives the same results from any two states with the same names. -/
+theorem selfContained_indep (b : List RegOp) (hb : selfContained b = true) (s s' : LegalRegs)
+    (hn : s.names = s'.names) : results (runRegs s b).2 = results (runRegs s' b).2 := by
+  induction b generalizing s s' with
+  | nil => rfl
+  | cons op ops ih =>
+    cases op with
+    | setEpsilon t =>
+      have := (results_agree ops (( RegOp.setEpsilon t).step s).1 ((RegOp.setEpsilon t).step s').1 rfl hn).1
+      simpa [runRegs, results, RegOp.step, RegOut.isResult, List.filter_cons] using this
+    | getEpsilon => simp [selfContained] at hb
+    | addEquation h => simp [selfContained] at hb
+    | createVariable n =>
+      have := ih (by simpa [selfContained] using hb) s s' hn
+      simp only [runRegs, results, RegOp.step, List.filter_cons, hn] at this ⊢
+      rw [this]
+    | turnOff f =>
+      have := ih (by simpa [selfContained] using hb) ((RegOp.turnOff f).step s).1 ((RegOp.turnOff f).step s').1 hn
+      simpa [runRegs, results, RegOp.step, RegOut.isResult, List.filter_cons] using this
+    | turnOn f =>
+      have := ih (by simpa [selfContained] using hb) ((RegOp.turnOn f).step s).1 ((RegOp.turnOn f).step s').1 hn
+      simpa [runRegs, results, RegOp.step, RegOut.isResult, List.filter_cons] using this
+    | debug f =>
+      have := ih (by simpa [selfContained] using hb) s s' hn
+      simpa [runRegs, results, RegOp.step, RegOut.isResult, List.filter_cons] using this
+
+/-- **legal_build_history_indep**: whatever register operations the process executed before (earlier model
+    constructions, `turn_off_flag`, solves reading the slack, …), a self-contained sequence — every legaliser model
+    construction is one — produces the results it produces in a fresh process. -/
+theorem legal_build_history_indep (hist b : List RegOp) (hb : selfContained b = true) :
+    results (runRegs (runRegs LegalRegs.init hist).1 b).2 = results (runRegs LegalRegs.init b).2 :=
+  selfContained_indep b hb _ _ (reachable_names_nil hist)
+
+/-- why `selfContained` is needed: reading the slack first sees whatever an earlier construction installed. -/
+theorem slack_read_depends_on_history :
+    results (runRegs (runRegs LegalRegs.init [.setEpsilon 7]).1 [.getEpsilon]).2 ≠
+    results (runRegs LegalRegs.init [.getEpsilon]).2 := by decide
+
+/-- non-vacuity: the register trace of a model construction (`define_time` then equations) after a history that
+    installed another slack, turned flags off and read. -/
+example : selfContained [.createVariable "time", .setEpsilon 2, .addEquation false, .debug 1, .getEpsilon] = true ∧
+    results (runRegs (runRegs LegalRegs.init [.setEpsilon 1, .turnOff 1, .getEpsilon]).1
+      [.createVariable "time", .setEpsilon 2, .addEquation false, .debug 1, .getEpsilon]).2 =
+    [.name "time", .unit, .tag 2, .tag 2] := by decide
 
 /-! ### why the tolerance theorems are `_partial`
 
